@@ -71,6 +71,22 @@ def BOUNDED(tier, seed):
                     fails.append({'key': 'inclusion_law', 'summary': f'k={k} n={n} p={p}: inclusion probabilities {[str(x) for x in probs]} '
                                   f'!= law {[str(x) for x in exp]}', 'k': k, 'n': n, 'p': str(p),
                                   'observed': {'probs': [str(x) for x in probs], 'law': [str(x) for x in exp], 'total': str(total)}})
+    # the law does not depend on the targets: store_targets=True with arrivals that carry no target
+    from ixai.storage import GeometricReservoirStorage
+    for k, n in ((1, 3), (2, 4)):
+        evals += 1
+        cases.add((k, n, 'targets_omitted'))
+        st = GeometricReservoirStorage(size=k, constant_probability=1.0, store_targets=True)
+        for t in range(n):
+            if t % 2:
+                st.update({'t': t})
+            else:
+                st.update({'t': t}, None)
+            xs, ys = st.get_data()
+            if not any(x['t'] == t for x in xs) or len(ys) != len(xs):
+                fails.append({'key': 'inclusion_law', 'summary': f'k={k} p=1 store_targets=True: arrival {t} (no target supplied) is not stored '
+                              f'(stored {[x["t"] for x in xs]}, {len(ys)} targets)', 'observed': [x['t'] for x in xs]})
+                break
     return [{'name': 'exact_inclusion_probabilities', 'evaluations': evals, 'distinct_nontrivial': len(cases),
              'rule': 'every accept/reject x slot outcome forced through the real class via scripted draws, exact rational weights; '
                      'k in 1..3, n up to 5 (quick) / 6 (thorough), p in {0, 1/4, 1/k, 1/2, 1}; distinct = (k, n, p)',
